@@ -1068,6 +1068,10 @@ def randsphere(num, ra_range=None, dec_range=None, system="eq", rng=None):
     ra_range = _check_range(ra_range, [0.0, 360.0])
     dec_range = _check_range(dec_range, [-90.0, 90.0])
 
+    # work in double precision whatever the type of the ranges
+    ra_range = [float(ra_range[0]), float(ra_range[1])]
+    dec_range = [float(dec_range[0]), float(dec_range[1])]
+
     ra = rng.uniform(low=ra_range[0], high=ra_range[1], size=num)
 
     # number [-1,1)
@@ -1122,6 +1126,11 @@ def randcap(nrand, ra, dec, rad, get_radius=False, dorot=False, rng=None):
 
     if rng is None:
         rng = np.random.RandomState()
+
+    # work in double precision whatever the type of the inputs
+    ra = np.float64(ra)
+    dec = np.float64(dec)
+    rad = np.float64(rad)
 
     # generate uniformly in r**2
     if dec >= 89.9 or dec <= -89.9:
